@@ -475,6 +475,32 @@ pub fn split_cases(max_n: usize) -> Vec<SplitCase> {
     v
 }
 
+// Compile-time probe: is `ViewMutData::split_mut` (still) a *safe* fn? Safe fn
+// items implement `Fn`, unsafe ones do not; method resolution prefers the
+// by-reference impl when the bound holds (autoref specialisation). When the
+// function is unsafe it is not part of the safe API and the probe is vacuous.
+use rten_tensor::storage::ViewMutData;
+use std::ops::Range;
+type Halves<'a> = (ViewMutData<'a, u32>, ViewMutData<'a, u32>);
+struct SplitFn<F>(F);
+trait ViaSafe<'a> {
+    fn split(&self, s: ViewMutData<'a, u32>, l: Range<usize>, r: Range<usize>) -> Option<Halves<'a>>;
+}
+impl<'a, F: Fn(ViewMutData<'a, u32>, Range<usize>, Range<usize>) -> Halves<'a>> ViaSafe<'a> for SplitFn<F> {
+    fn split(&self, s: ViewMutData<'a, u32>, l: Range<usize>, r: Range<usize>) -> Option<Halves<'a>> {
+        Some((self.0)(s, l, r))
+    }
+}
+#[allow(dead_code)]
+trait ViaUnsafe<'a> {
+    fn split(&self, s: ViewMutData<'a, u32>, l: Range<usize>, r: Range<usize>) -> Option<Halves<'a>>;
+}
+impl<'a, F> ViaUnsafe<'a> for &SplitFn<F> {
+    fn split(&self, _s: ViewMutData<'a, u32>, _l: Range<usize>, _r: Range<usize>) -> Option<Halves<'a>> {
+        None
+    }
+}
+
 /// `tensor.storage_mut().split_mut(l, r)` followed by the safe
 /// `from_storage_and_layout`: two mutable views that are alive at the same time
 /// must not share an element.
@@ -485,7 +511,9 @@ pub fn split_oracle(c: &SplitCase) -> vcore::Verdict {
     let (l, r) = (c.left, c.right);
     let res = vcore::catch(|| {
         let sm = t.storage_mut();
-        let (ls, rs) = sm.split_mut(l.0..l.1, r.0..r.1);
+        let Some((ls, rs)) = (&SplitFn(ViewMutData::<u32>::split_mut)).split(sm, l.0..l.1, r.0..r.1) else {
+            return None;
+        };
         let (ll, rl) = (rten_tensor::storage::Storage::len(&ls), rten_tensor::storage::Storage::len(&rs));
         let mk = |n: usize| NdLayout::<1>::from_shape_and_strides([n], [1], OverlapPolicy::DisallowOverlap).unwrap();
         let mut a = NdTensorViewMut::from_storage_and_layout(ls, mk(ll));
@@ -493,11 +521,12 @@ pub fn split_oracle(c: &SplitCase) -> vcore::Verdict {
         // both views are alive here
         let pa: Vec<usize> = a.iter_mut().map(|r| (r as *mut u32 as usize - base) / 4).collect();
         let pb: Vec<usize> = b.iter_mut().map(|r| (r as *mut u32 as usize - base) / 4).collect();
-        (pa, pb)
+        Some((pa, pb))
     });
     match res {
         Err(_) => vcore::Verdict::pass_l(false, vec!["split-refused"]),
-        Ok((pa, pb)) => {
+        Ok(None) => vcore::Verdict::pass_l(false, vec!["split_mut-is-an-unsafe-fn(not-safe-API)"]),
+        Ok(Some((pa, pb))) => {
             if pa.iter().chain(&pb).any(|&p| p >= c.n) {
                 return vcore::Verdict::fail("oob:storage-split_mut", format!("{c:?}: positions {pa:?} / {pb:?} outside storage of {} elements", c.n));
             }
